@@ -13,6 +13,9 @@ import random
 import sys
 
 J = []          # the journal of user-level hooks
+# a module global that comes BEFORE every class in the module dict (dict order = first binding): the scan of module
+# globals for a static method's class passes over it; bound to a hooked object further down
+early_lazy_global = None
 
 
 def note(what):
@@ -280,9 +283,18 @@ class GlobalGA:
         return object.__getattribute__(self, name)
 
 
+class ScannedGA:
+    """attribute hook on an object in a module global that is NOT a lookup candidate (no traced function has its name):
+    the scan of module globals for a static method's class must pass over it without touching it"""
+    def __getattribute__(self, name):
+        note(f"ScannedGA.__getattribute__({name})")
+        return object.__getattribute__(self, name)
+
+
 # a module global that happens to be named like a traced method: get_func looks at it first
 meth = GlobalGA()
-some_lazy_global = GlobalGA()     # any other global: scanned when a static method has to be looked up
+some_lazy_global = ScannedGA()     # any other global: scanned when a static method has to be looked up
+early_lazy_global = ScannedGA()    # keeps its early position in the module dict (before every class)
 
 
 def outer_with_closure(v):
@@ -364,7 +376,13 @@ def main():
             rec["flushes"] = 1           # nothing to flush; normalised
         else:
             import logging
-            logging.disable(logging.CRITICAL)      # the tracer reports contained failures through `logging`; keep stderr quiet
+            # the tracer reports contained failures through `logging`: a handler that really formats every record (as the
+            # default last-resort handler does), into a buffer, so that whatever the messages interpolate is evaluated
+            logbuf = io.StringIO()
+            _h = logging.StreamHandler(logbuf)
+            _h.setFormatter(logging.Formatter("%(levelname)s %(name)s %(message)s"))
+            logging.getLogger().addHandler(_h)
+            logging.getLogger().setLevel(logging.DEBUG)
             from monkeytype.tracing import CallTraceLogger, trace_calls
             import monkeytype.typing as mtt
 
@@ -392,6 +410,10 @@ def main():
                                                           "named_like_a_global", "outer_with_closure", "local_fn", "smeth")):
                         tracer_obj = sys.getprofile()
                         workload(vals, out)
+                        if "hot_section" in fault:
+                            # the traced block switches profiling off itself (a hot section) or installs its own profiler
+                            # and does not put the tracer back: the context must still restore the previous one
+                            sys.setprofile(None if seed % 2 else OldProfiler())
                         if body_raises:
                             raise KeyError("from the traced block")
                 except KeyError as e:
@@ -406,6 +428,7 @@ def main():
             rec["logged"] = logger.logged
             rec["flush_exception"] = flush_exc
             rec["residue"] = len(getattr(tracer_obj, "traces", {}))
+            rec["log_chars"] = len(logbuf.getvalue())
     finally:
         sys.stdout = real_stdout
     rec["journal"] = list(J)
